@@ -98,10 +98,15 @@ func (c *FuncCtx) callSelector(st *State, f *ast.SelectorExpr, x *ast.CallExpr) 
 			var pn *types.PkgName
 			if o, ok := c.eng.info.Uses[id]; ok {
 				pn, _ = o.(*types.PkgName)
-			} else if c.eng.info.Defs[id] == nil && c.lookupSpecName(st, id.Name) == nil {
-				for _, imp := range c.eng.pkg.Types.Imports() {
-					if imp.Name() == id.Name {
-						pn = types.NewPkgName(token.NoPos, c.eng.pkg.Types, imp.Name(), imp)
+			} else if c.eng.info.Defs[id] == nil {
+				switch o := c.lookupSpecName(st, id.Name).(type) {
+				case *types.PkgName:
+					pn = o
+				case nil:
+					for _, imp := range c.eng.pkg.Types.Imports() {
+						if imp.Name() == id.Name {
+							pn = types.NewPkgName(token.NoPos, c.eng.pkg.Types, imp.Name(), imp)
+						}
 					}
 				}
 			}
